@@ -20,29 +20,41 @@ pub fn cfg_for(id: &str, quick: bool) -> (Cfg, u8) {
         // index mirror: renames, mail, delete/revive/purge, reindex / clear-cache, domain rename
         "C03" => (
             if quick {
-                Cfg { slots: vec![0, 2], names: 2, mail: false, members: true, domain_rename: false, lifecycle: true, purge: true, maint: false, precreate: vec![], premembers: vec![], props }
+                // starts populated so that two operations reach rename-after-rename, external id
+                // changes, delete / revive with memberships
+                Cfg { slots: vec![0, 2, 4], names: 2, mail: false, members: true, domain_rename: false, lifecycle: true, purge: true, maint: false, precreate: vec![0, 2, 4], premembers: vec![], props, extid: true, revive_all: false }
             } else {
-                Cfg { slots: vec![0, 1, 2], names: 2, mail: true, members: true, domain_rename: true, lifecycle: true, purge: true, maint: true, precreate: vec![], premembers: vec![], props }
+                Cfg { slots: vec![0, 1, 2, 4], names: 2, mail: true, members: true, domain_rename: true, lifecycle: true, purge: true, maint: true, precreate: vec![], premembers: vec![], props, extid: true, revive_all: true }
             },
-            if quick { 3 } else { 4 },
+            if quick { 2 } else { 4 },
         ),
         "C22" => (
-            Cfg { slots: vec![0, 2, 4], names: 2, mail: false, members: false, domain_rename: true, lifecycle: true, purge: false, maint: false, precreate: vec![], premembers: vec![], props },
+            if quick {
+                Cfg { slots: vec![0, 2], names: 2, mail: false, members: false, domain_rename: true, lifecycle: true, purge: false, maint: false, precreate: vec![0, 2], premembers: vec![], props, extid: false, revive_all: false }
+            } else {
+                Cfg { slots: vec![0, 2, 4], names: 2, mail: false, members: false, domain_rename: true, lifecycle: true, purge: false, maint: false, precreate: vec![], premembers: vec![], props, extid: false, revive_all: true }
+            },
             if quick { 3 } else { 5 },
         ),
         "C26" => (
-            // starts from a populated directory: P1 in G1, G1 in G2
-            Cfg { slots: if quick { vec![0, 2] } else { vec![0, 2, 3] }, names: 0, mail: false, members: true, domain_rename: false, lifecycle: true, purge: true, maint: false, precreate: if quick { vec![0, 2] } else { vec![0, 2, 3] }, premembers: if quick { vec![(2, 0)] } else { vec![(2, 0), (3, 2)] }, props },
-            if quick { 5 } else { 6 },
+            // starts from a populated directory: P1 and P2 in G1 (thorough: G1 in G2)
+            Cfg { slots: if quick { vec![0, 1, 2] } else { vec![0, 1, 2, 3] }, names: 0, mail: false, members: true, domain_rename: false, lifecycle: true, purge: true, maint: false, precreate: if quick { vec![0, 1, 2] } else { vec![0, 1, 2, 3] }, premembers: if quick { vec![(2, 0), (2, 1)] } else { vec![(2, 0), (2, 1), (3, 2)] }, props, extid: false, revive_all: true },
+            if quick { 4 } else { 6 },
         ),
         // member edges between a person and three groups (cycles and self-edges included),
         // delete / revive of any of them
         "C17" => (
-            Cfg { slots: if quick { vec![0, 2, 3] } else { vec![0, 2, 3, 1] }, names: 0, mail: false, members: true, domain_rename: false, lifecycle: true, purge: false, maint: false, precreate: if quick { vec![0, 2, 3] } else { vec![0, 2, 3, 1] }, premembers: vec![], props },
+            Cfg { slots: if quick { vec![0, 2, 3] } else { vec![0, 2, 3, 1] }, names: 0, mail: false, members: true, domain_rename: false, lifecycle: true, purge: false, maint: false, precreate: if quick { vec![0, 2, 3] } else { vec![0, 2, 3, 1] }, premembers: vec![], props, extid: false, revive_all: false },
             if quick { 3 } else { 5 },
         ),
         _ => (
-            Cfg { slots: vec![0, 1, 2, 4], names: 2, mail: false, members: false, domain_rename: false, lifecycle: true, purge: false, maint: false, precreate: vec![], premembers: vec![], props },
+            if quick {
+                // two people already exist (names a and b): delete / rename / revive clashes are
+                // three operations away
+                Cfg { slots: vec![0, 1], names: 2, mail: false, members: false, domain_rename: false, lifecycle: true, purge: false, maint: false, precreate: vec![0, 1], premembers: vec![], props, extid: false, revive_all: false }
+            } else {
+                Cfg { slots: vec![0, 1, 2, 4], names: 2, mail: false, members: false, domain_rename: false, lifecycle: true, purge: false, maint: false, precreate: vec![], premembers: vec![], props, extid: false, revive_all: true }
+            },
             if quick { 3 } else { 5 },
         ),
     }
